@@ -74,10 +74,15 @@ class MementoException(RuntimeError):
             module_name = match.group(2)
             name = match.group(3)
             if language == "python":
-                module = importlib.import_module(module_name)
-                ref = module
-                for part in name.split("."):
-                    ref = getattr(ref, part)
+                try:
+                    module = importlib.import_module(module_name)
+                    ref = module
+                    for part in name.split("."):
+                        ref = getattr(ref, part)
+                except (ImportError, AttributeError):
+                    # The class cannot be found again (e.g. it is local to a function, or its
+                    # module is not importable here): return this as a MementoException
+                    return self
                 if not inspect.isclass(ref):
                     return self
                 try:
